@@ -174,6 +174,51 @@ pub fn check(c: &Case) -> Result<(), String> {
                     return Err(format!("Auth::verify accepted a tag with bit {bit} flipped"));
                 }
             }
+            if *flips && msg.len() <= 130 {
+                // every pair of flipped bits (a comparison that folds differences so that two of them can cancel
+                // - XOR instead of OR, a sum, a word-wise reduction - accepts some of these)
+                for b1 in 0..256usize {
+                    for b2 in (b1 + 1)..256 {
+                        let mut bad = s;
+                        bad[b1 / 8] ^= 1 << (b1 % 8);
+                        bad[b2 / 8] ^= 1 << (b2 % 8);
+                        if crypto_auth_verify(&bad, msg, &k).is_ok() {
+                            return Err(format!("crypto_auth_verify accepted a tag with bits {b1} and {b2} flipped"));
+                        }
+                        if Auth::compute_and_verify(&bad, k, &msg.0).is_ok() {
+                            return Err(format!("Auth::compute_and_verify accepted a tag with bits {b1} and {b2} flipped"));
+                        }
+                        let mut a = Auth::new(k);
+                        a.update(&msg.0);
+                        if a.verify(&bad).is_ok() {
+                            return Err(format!("Auth::verify accepted a tag with bits {b1} and {b2} flipped"));
+                        }
+                    }
+                }
+                // structured wrong tags: byte/word permutations and complements of the right tag
+                let mut variants: Vec<[u8; 32]> = vec![];
+                for r in 1..32 {
+                    let mut t = s;
+                    t.rotate_left(r);
+                    variants.push(t);
+                }
+                let mut t = s;
+                t.reverse();
+                variants.push(t);
+                variants.push(s.map(|b| !b));
+                variants.push([0u8; 32]);
+                variants.push([0xff; 32]);
+                for bad in variants {
+                    if bad == s {
+                        continue;
+                    }
+                    let mut a = Auth::new(k);
+                    a.update(&msg.0);
+                    if crypto_auth_verify(&bad, msg, &k).is_ok() || Auth::compute_and_verify(&bad, k, &msg.0).is_ok() || a.verify(&bad).is_ok() {
+                        return Err(format!("an HMAC verify function accepted the permuted / complemented tag {}", hx(&bad)));
+                    }
+                }
+            }
             let mut f = Fill::new(fnv64(&[&k, msg]), "othertags");
             for _ in 0..if *flips { 32 } else { 2 } {
                 let other: [u8; 32] = f.arr();
@@ -229,6 +274,48 @@ pub fn check(c: &Case) -> Result<(), String> {
                 a.update(&msg.0);
                 if a.verify(&bad).is_ok() {
                     return Err(format!("OnetimeAuth::verify accepted a tag with bit {bit} flipped"));
+                }
+            }
+            if *flips && msg.len() <= 130 {
+                for b1 in 0..128usize {
+                    for b2 in (b1 + 1)..128 {
+                        let mut bad = s;
+                        bad[b1 / 8] ^= 1 << (b1 % 8);
+                        bad[b2 / 8] ^= 1 << (b2 % 8);
+                        if crypto_onetimeauth_verify(&bad, msg, &k).is_ok() {
+                            return Err(format!("crypto_onetimeauth_verify accepted a tag with bits {b1} and {b2} flipped"));
+                        }
+                        if OnetimeAuth::compute_and_verify(&bad, k, &msg.0).is_ok() {
+                            return Err(format!("OnetimeAuth::compute_and_verify accepted a tag with bits {b1} and {b2} flipped"));
+                        }
+                        let mut a = OnetimeAuth::new(k);
+                        a.update(&msg.0);
+                        if a.verify(&bad).is_ok() {
+                            return Err(format!("OnetimeAuth::verify accepted a tag with bits {b1} and {b2} flipped"));
+                        }
+                    }
+                }
+                let mut variants: Vec<[u8; 16]> = vec![];
+                for r in 1..16 {
+                    let mut t = s;
+                    t.rotate_left(r);
+                    variants.push(t);
+                }
+                let mut t = s;
+                t.reverse();
+                variants.push(t);
+                variants.push(s.map(|b| !b));
+                variants.push([0u8; 16]);
+                variants.push([0xff; 16]);
+                for bad in variants {
+                    if bad == s {
+                        continue;
+                    }
+                    let mut a = OnetimeAuth::new(k);
+                    a.update(&msg.0);
+                    if crypto_onetimeauth_verify(&bad, msg, &k).is_ok() || OnetimeAuth::compute_and_verify(&bad, k, &msg.0).is_ok() || a.verify(&bad).is_ok() {
+                        return Err(format!("a Poly1305 verify function accepted the permuted / complemented tag {}", hx(&bad)));
+                    }
                 }
             }
             Ok(())
@@ -566,7 +653,7 @@ pub fn gen_cases(seed: u64, tier: Tier) -> Vec<Case> {
 }
 
 pub fn run(ctx: &mut Ctx) -> Result<(), Violation> {
-    ctx.rule = "Deterministic enumeration: every input length 0..=1100 x content classes {random,0x00,0xff,counter,0x80..01} for SHA-512, HMAC-SHA-512-256, Poly1305, SipHash-2-4, BLAKE2b (full 49x(1+49) digest x key grid at lengths {0,1,127,128,129,255,256,257}, a seeded slice elsewhere, out-of-range lengths 0..=80), little-endian increment (carry runs, wrap), HSalsa20/HChaCha20 (default and custom constants); Poly1305 adversarial operands: extreme r/s, and messages whose last block is SOLVED with big-integer arithmetic so the accumulator lands on 0..6, p-1..p-3, 2^44/64/88/128/129 (+-1), 2^130-6, with s chosen to wrap 2^128. Oracle: dryoc == libsodium == harness spec model (3-way), verify accepts the right tag and rejects every single-bit flip and random tags, in classic and object APIs. Non-trivial: input longer than one block of the primitive, adversarial Poly1305 operand, or non-default digest/key length; distinct = hash(primitive, params, input).".into();
+    ctx.rule = "Deterministic enumeration: every input length 0..=1100 x content classes {random,0x00,0xff,counter,0x80..01} for SHA-512, HMAC-SHA-512-256, Poly1305, SipHash-2-4, BLAKE2b (full 49x(1+49) digest x key grid at lengths {0,1,127,128,129,255,256,257}, a seeded slice elsewhere, out-of-range lengths 0..=80), little-endian increment (carry runs, wrap), HSalsa20/HChaCha20 (default and custom constants); Poly1305 adversarial operands: extreme r/s, and messages whose last block is SOLVED with big-integer arithmetic so the accumulator lands on 0..6, p-1..p-3, 2^44/64/88/128/129 (+-1), 2^130-6, with s chosen to wrap 2^128. Oracle: dryoc == libsodium == harness spec model (3-way), verify accepts the right tag and rejects every single-bit flip, every two-bit flip, rotations / reversal / complement of the tag and random tags, in classic and object APIs. Non-trivial: input longer than one block of the primitive, adversarial Poly1305 operand, or non-default digest/key length; distinct = hash(primitive, params, input).".into();
     ctx.assumptions = vec![
         "libsodium 1.0.18 and the harness models (pinned by RFC/FIPS vectors at start-up) are independent correct references".into(),
         "BLAKE2b inputs >= 2^64 bytes are out of reach (excluded by the property)".into(),
